@@ -76,6 +76,9 @@ def _cases(tier, seed):
     for dt in ('float64', 'complex128'):
         for op in ('mul', 'rmul'):
             cs.append({'scen': 'ttm_scalar', 's': {'op': op, 'M': [2, 1], 'N': [1, 3], 'RA': [1, 2, 1], 'dtype': dt, 'skind': 'complex'}})
+    for fv in (0.1, 1.0000000596046448):
+        for op in ('add', 'sub', 'rsub', 'mul', 'rmul', 'div'):
+            cs.append({'scen': 'ttm_scalar', 's': {'op': op, 'M': [2, 1], 'N': [1, 3], 'RA': [1, 2, 1], 'dtype': 'float64', 'skind': 'pyfloat', 'fval': fv}})
     return cs
 
 
